@@ -55,6 +55,8 @@ class IdentityLinearOperator(ConstantDiagLinearOperator):
         return self._device
 
     def _maybe_reshape_rhs(self, rhs: Union[torch.Tensor, LinearOperator]) -> Union[torch.Tensor, LinearOperator]:
+        if rhs.dim() == 0 or rhs.shape[-2 if rhs.dim() > 1 else -1] != self.diag_shape:
+            raise RuntimeError("Size mismatch, self: {}, rhs: {}".format(self.shape, rhs.shape))
         if self._batch_shape != rhs.shape[:-2]:
             batch_shape = torch.broadcast_shapes(rhs.shape[:-2], self._batch_shape)
             return rhs.expand(*batch_shape, *rhs.shape[-2:])
